@@ -8,6 +8,7 @@ import (
 	"encoding/json"
 	"errors"
 	"fmt"
+	"os"
 	"runtime"
 	"strings"
 	"sync"
@@ -98,7 +99,8 @@ func (w *c23world) holdFailure() {
 		return
 	}
 	atomic.AddInt32(&w.waiters, 1)
-	for c23count("sentinelClient)._switchTarget(") > int(atomic.LoadInt32(&w.waiters)) {
+	// "._refresh.func" matches the two goroutine bodies of _refresh, started or not yet started
+	for c23count("sentinelClient)._refresh.func") > int(atomic.LoadInt32(&w.waiters)) {
 		runtime.Gosched()
 	}
 	atomic.AddInt32(&w.waiters, -1)
@@ -314,8 +316,14 @@ func c23goroutineIn(sub string) bool {
 }
 
 // settle waits (on conditions, not on time) until the goroutines the client started in the last step are done
+var c23dbg = os.Getenv("C23DBG") != ""
+
 func (s *c23sim) settle() {
 	w := s.w
+	if c23dbg {
+		fmt.Fprintf(os.Stderr, "  settle world %p start\n", w)
+		defer fmt.Fprintf(os.Stderr, "  settle world %p done\n", w)
+	}
 	w.mu.Lock()
 	for w.receives < w.unsubs {
 		w.cond.Wait()
@@ -323,7 +331,7 @@ func (s *c23sim) settle() {
 	w.mu.Unlock()
 	if s.root.Replicas {
 		// _refresh runs the master and the replica switch concurrently and may leave one of them behind
-		for i := 0; c23goroutineIn("sentinelClient)._switchTarget"); i++ {
+		for c23goroutineIn("sentinelClient)._refresh.func") || c23goroutineIn("sentinelClient)._switchTarget(") || atomic.LoadInt32(&w.waiters) != 0 {
 			runtime.Gosched()
 		}
 	}
@@ -455,6 +463,9 @@ func (s *c23sim) userDo(write bool) (node int, err error) {
 }
 
 func (s *c23sim) apply(ev string) {
+	if c23dbg {
+		fmt.Fprintf(os.Stderr, " apply %s world %p dead=%v\n", ev, s.w, s.dead)
+	}
 	if s.dead {
 		return
 	}
@@ -687,6 +698,9 @@ func TestVerif_C23(t *testing.T) {
 				for _, h := range frontier {
 					for _, ev := range evs {
 						c := c23case{Root: root, Events: append(append([]string(nil), h...), ev)}
+						if os.Getenv("C23DBG") != "" {
+							fmt.Fprintln(os.Stderr, "replay", c.Root, c.Events)
+						}
 						s := c23replay(c)
 						r.Evaluations++
 						r.Transitions++
